@@ -684,6 +684,14 @@ template <class VecT> static void gen_meshes(bool thorough, uint64_t seed, const
                 hfs.push_back(m.halfface_handle(m.add_face(std::vector<VertexHandle>{bot[i], bot[j], top[j], top[i]}), 0));
             }
             m.add_cell(hfs);
+            {   // a pyramid on the prism's top face: a cell whose vertices lie in different numbers of its faces
+                // (apex: k faces, base vertices: 3) -- averages weighted by face incidence differ from the vertex mean here
+                VertexHandle apex = addv(m, sc * (hx + rng.range(-2, 2)), sc * (hy + rng.range(-2, 2)), sc * (hz + rng.range(1, 3)));
+                std::vector<HalfFaceHandle> ph;
+                ph.push_back(m.halfface_handle(m.face_handle(hfs[1]), 1));
+                for (int i = 0; i < k; ++i) { int j = (i + 1) % k; ph.push_back(m.halfface_handle(m.add_face(std::vector<VertexHandle>{top[i], top[j], apex}), 0)); }
+                m.add_cell(ph);
+            }
             int nfree = rng.range(1, 4);
             for (int f = 0; f < nfree; ++f) {
                 int kk = rng.range(3, 6); std::vector<VertexHandle> vs; std::set<std::tuple<int, int, int>> u3;
